@@ -25,7 +25,7 @@ const (
 	c09Timeout  = 3 * time.Second
 )
 
-var c09Outcomes = []string{"dial-error", "dial-timeout", "refused", "no-connack", "close-before-connack", "close-after-connack", "protocol-error", "keepalive-timeout", "half-broken"}
+var c09Outcomes = []string{"dial-error", "dial-timeout", "refused", "no-connack", "close-before-connack", "close-after-connack", "protocol-error", "keepalive-timeout", "half-broken", "connect-write-fails"}
 
 type c09Attempt struct {
 	outcome string
@@ -164,6 +164,11 @@ func c09Body(script []string, base, max time.Duration, stop c09Stop, outNet **en
 			}
 			p := &c09Peer{a: a}
 			a.conn = net.NewConn(p)
+			if o == "connect-write-fails" {
+				// the dial succeeds but the link is already dead when CONNECT is written
+				a.conn.FailWrites = true
+				a.endAt = vrt.Now()
+			}
 			peers = append(peers, p)
 			return &mqtt.BaseClient{Transport: a.conn, ConnState: func(st mqtt.ConnState, _ error) {
 				if st == mqtt.StateActive {
